@@ -621,7 +621,6 @@ def str_as_bytes(m, a, c):
     return Ptr([s], 0)
 
 
-@model("core::slice::<impl [T]>::get")
 def slice_get(m, a, c):
     i = a[1]
     if is_sym(i):
@@ -740,7 +739,10 @@ def vec_deref(m, a, c):
 
 @model("core::slice::<impl [T]>::iter")
 def slice_iter(m, a, c):
-    return Iter(V(a[0]).v, "slice")
+    x = deref(a[0])
+    if isinstance(x, (Str, Tendril)):
+        return Iter(bytes_of(a[0]), "slice")
+    return Iter(seq_of(a[0]), "slice")
 
 
 @model("<std::slice::Iter as Iterator>::any", "<Iter as Iterator>::any")
@@ -1031,7 +1033,30 @@ def deref_special(m, v):
     raise Unsupported("deref of %r" % (v,))
 
 
+class _SliceSeq:
+    """list-like window onto Slice.base so that Ptr(seq, i) reads/writes the underlying storage"""
+    __slots__ = ("s",)
+
+    def __init__(self, s):
+        self.s = s
+
+    def __len__(self):
+        return self.s.hi - self.s.lo
+
+    def __getitem__(self, i):
+        if not 0 <= i < len(self):
+            raise Panic("slice index out of bounds")
+        return self.s.base[self.s.lo + i]
+
+    def __setitem__(self, i, v):
+        if not 0 <= i < len(self):
+            raise Panic("slice index out of bounds")
+        self.s.base[self.s.lo + i] = v
+
+
 def index_special(m, v):
+    if type(v).__name__ == "Slice":
+        return _SliceSeq(v)
     if isinstance(v, Str):
         return v.ch
     if isinstance(v, VecM):
@@ -1222,4 +1247,400 @@ def vec_insert(m, a, c):
     if is_sym(a[1]):
         raise Unsupported("symbolic Vec::insert index")
     V(a[0]).v.insert(a[1], a[2])
+    return UNIT
+
+
+# ---------------------------------------------------------------- byte slices / iterators (used by encoding.rs and tendril's decoder)
+def bytes_of(v):
+    x = deref(v)
+    if isinstance(x, Str):
+        return x.ch if x.bytes else byte_view(x.ch)
+    if isinstance(x, Tendril):
+        return byte_view(x.ch)
+    if isinstance(x, Arr):
+        return x.f
+    raise Unsupported("expected bytes, got %r" % (x,))
+
+
+@model("core::slice::<impl [T]>::get")
+def slice_get2(m, a, c):
+    i = a[1]
+    seq = seq_of(a[0]) if not isinstance(deref(a[0]), (Str, Tendril)) else bytes_of(a[0])
+    if isinstance(i, Struct) and i.ty == "Range":
+        s, e = i.f
+        if is_sym(s) or is_sym(e):
+            raise Unsupported("symbolic range")
+        if s <= e <= len(seq):
+            return some(Ptr([Str(seq[s:e], True)], 0))
+        return none()
+    if is_sym(i):
+        raise Unsupported("symbolic slice index")
+    if i < len(seq):
+        return some(Ptr(seq, i))
+    return none()
+
+
+@model("<[T] as Index>::index")
+def slice_index_range(m, a, c):
+    seq = bytes_of(a[0])
+    r = a[1]
+    if isinstance(r, Struct) and r.ty == "RangeFrom":
+        if r.f[0] > len(seq):
+            raise Panic("range start index out of range for slice")
+        return Ptr([Str(seq[r.f[0]:], True)], 0)
+    if isinstance(r, Struct) and r.ty == "RangeTo":
+        if r.f[0] > len(seq):
+            raise Panic("range end index out of range for slice")
+        return Ptr([Str(seq[:r.f[0]], True)], 0)
+    if isinstance(r, Struct) and r.ty == "Range":
+        if not (r.f[0] <= r.f[1] <= len(seq)):
+            raise Panic("slice index out of range")
+        return Ptr([Str(seq[r.f[0]:r.f[1]], True)], 0)
+    raise Unsupported("slice index by %r" % (r,))
+
+
+@model("core::slice::ascii::<impl [T]>::eq_ignore_ascii_case", "core::slice::ascii::<impl [u8]>::eq_ignore_ascii_case")
+def slice_eq_ic(m, a, c):
+    x, y = bytes_of(a[0]), bytes_of(a[1])
+    if len(x) != len(y):
+        return False
+    conds = []
+    for p, q in zip(x, y):
+        lp = (p + 32 if 65 <= p <= 90 else p) if isinstance(p, int) else z3.If(z3.And(z3.UGE(p, 65), z3.ULE(p, 90)), p + 32, p)
+        lq = (q + 32 if 65 <= q <= 90 else q) if isinstance(q, int) else z3.If(z3.And(z3.UGE(q, 65), z3.ULE(q, 90)), q + 32, q)
+        if isinstance(lp, int) and isinstance(lq, int):
+            if lp != lq:
+                return False
+            continue
+        w = lp.size() if is_sym(lp) else lq.size()
+        conds.append(to_bv(lp, w) == to_bv(lq, w))
+    return b_and(*conds) if conds else True
+
+
+@model("core::num::<impl u8>::is_ascii_whitespace")
+def u8_is_ws(m, a, c):
+    x = deref(a[0])
+    if isinstance(x, int):
+        return x in (9, 10, 12, 13, 32)
+    return z3.Or([x == v for v in (9, 10, 12, 13, 32)])
+
+
+class TakeWhile:
+    __slots__ = ("it", "clo")
+
+    def __init__(self, it, clo):
+        self.it, self.clo = it, clo
+
+
+@model("<Iter as Iterator>::take_while", "<std::slice::Iter as Iterator>::take_while")
+def iter_take_while(m, a, c):
+    return TakeWhile(a[0], a[1])
+
+
+@model("<TakeWhile as Iterator>::count")
+def take_while_count(m, a, c):
+    tw = a[0]
+    it = tw.it
+    n = 0
+    clo = Ptr([tw.clo], 0)
+    for i in range(it.i, len(it.seq)):
+        r = m.prog.call_closure(m, clo, [Ptr([Ptr(it.seq, i)], 0)])
+        if not m.branch_bool(r, "take_while"):
+            break
+        n += 1
+    return n
+
+
+@model("<Iter as Iterator>::position", "<std::slice::Iter as Iterator>::position")
+def iter_position(m, a, c):
+    it = deref(a[0])
+    clo = a[1] if isinstance(a[1], Ptr) else Ptr([a[1]], 0)
+    for i in range(it.i, len(it.seq)):
+        r = m.prog.call_closure(m, clo, [Ptr(it.seq, i)])
+        if m.branch_bool(r, "position"):
+            return some(i - it.i)
+    return none()
+
+
+# ---------------------------------------------------------------- byte tendrils, slice views, core::str::from_utf8 (tendril's decoder)
+class BTendril:
+    """Tendril<fmt::Bytes>: a list of byte values"""
+    __slots__ = ("b",)
+
+    def __init__(self, b=()):
+        self.b = list(b)
+
+
+class Slice:
+    """&[T] / &mut [T] view into an underlying Python list"""
+    __slots__ = ("base", "lo", "hi")
+
+    def __init__(self, base, lo, hi):
+        self.base, self.lo, self.hi = base, lo, hi
+
+    def items(self):
+        return self.base[self.lo:self.hi]
+
+
+def view_of(v):
+    """-> (base list, lo, hi) of a slice-like value (mutable view where possible)"""
+    x = deref(v)
+    if isinstance(x, Slice):
+        return x.base, x.lo, x.hi
+    if isinstance(x, Arr):
+        return x.f, 0, len(x.f)
+    if isinstance(x, Str):
+        return x.ch, 0, len(x.ch)
+    if isinstance(x, BTendril):
+        return x.b, 0, len(x.b)
+    if isinstance(x, VecM):
+        return x.v, 0, len(x.v)
+    raise Unsupported("expected slice view, got %r" % (x,))
+
+
+_old_bytes_of = bytes_of
+
+
+def bytes_of(v):
+    x = deref(v)
+    if isinstance(x, Slice):
+        return x.items()
+    if isinstance(x, BTendril):
+        return list(x.b)
+    return _old_bytes_of(v)
+
+
+_old_seq_of = seq_of
+
+
+def seq_of(v):
+    x = deref(v)
+    if isinstance(x, Slice):
+        return x.items()
+    if isinstance(x, BTendril):
+        return x.b
+    return _old_seq_of(v)
+
+
+def BT(v):
+    x = deref(v)
+    if not isinstance(x, BTendril):
+        raise Unsupported("expected byte tendril, got %r" % (x,))
+    return x
+
+
+def _tendril_dispatch(name, bfn):
+    old = M.get(name)
+
+    def f(m, a, c, _old=old, _b=bfn):
+        if isinstance(deref(a[0]), BTendril):
+            USED.add(name + "[bytes]")
+            return _b(m, a, c)
+        return _old(m, a, c)
+    M[name] = f
+
+
+def _bt_pop_front(m, a, c):
+    t = BT(a[0])
+    n = a[1]
+    if is_sym(n):
+        raise Unsupported("symbolic pop_front")
+    if n > len(t.b):
+        raise Panic("Tendril::pop_front out of bounds")
+    t.b[:] = t.b[n:]
+    return UNIT
+
+
+def _bt_subtendril(m, a, c):
+    t = BT(a[0])
+    o, n = a[1], a[2]
+    if is_sym(o) or is_sym(n):
+        raise Unsupported("symbolic subtendril")
+    if o > len(t.b) or n > len(t.b) - o:
+        raise Panic("Tendril::subtendril out of bounds")
+    return BTendril(t.b[o:o + n])
+
+
+_tendril_dispatch("Tendril::pop_front", _bt_pop_front)
+_tendril_dispatch("Tendril::unsafe_pop_front", _bt_pop_front)
+_tendril_dispatch("Tendril::subtendril", _bt_subtendril)
+_tendril_dispatch("Tendril::unsafe_subtendril", _bt_subtendril)
+_tendril_dispatch("Tendril::is_empty", lambda m, a, c: len(BT(a[0]).b) == 0)
+_tendril_dispatch("Tendril::len32", lambda m, a, c: len(BT(a[0]).b))
+_tendril_dispatch("<Tendril as Deref>::deref", lambda m, a, c: Ptr([Str(BT(a[0]).b, True)], 0))
+
+
+@model("Tendril::reinterpret_without_validating")
+def tendril_reinterpret(m, a, c):
+    return a[0]
+
+
+_old_from_slice = M["Tendril::from_slice"]
+
+
+def _from_slice(m, a, c):
+    x = deref(a[0])
+    if isinstance(x, (Slice,)) or (isinstance(x, Str) and x.bytes):
+        return BTendril(bytes_of(a[0]))
+    return _old_from_slice(m, a, c)
+
+
+M["Tendril::from_slice"] = _from_slice
+
+_old_str_len = M["core::str::<impl str>::len"]
+
+
+def _str_len(m, a, c):
+    x = deref(a[0])
+    if isinstance(x, Slice) or (isinstance(x, Str) and x.bytes):
+        return len(bytes_of(a[0]))
+    return _old_str_len(m, a, c)
+
+
+M["core::str::<impl str>::len"] = _str_len
+M["str::len"] = _str_len
+
+
+@model("core::slice::<impl [T]>::split_at")
+def slice_split_at(m, a, c):
+    base, lo, hi = view_of(a[0])
+    mid = a[1]
+    if is_sym(mid):
+        raise Unsupported("symbolic split_at")
+    if mid > hi - lo:
+        raise Panic("split_at: mid > len")
+    return Tup([Ptr([Slice(base, lo, lo + mid)], 0), Ptr([Slice(base, lo + mid, hi)], 0)])
+
+
+@model("core::slice::<impl [T]>::copy_from_slice")
+def slice_copy_from_slice(m, a, c):
+    base, lo, hi = view_of(a[0])
+    src = bytes_of(a[1])
+    if len(src) != hi - lo:
+        raise Panic("copy_from_slice: source slice length does not match destination slice length")
+    base[lo:hi] = src
+    return UNIT
+
+
+@model("<[T] as IndexMut>::index_mut")
+def slice_index_mut(m, a, c):
+    base, lo, hi = view_of(a[0])
+    r = a[1]
+    n = hi - lo
+    if isinstance(r, Struct) and r.ty == "RangeFrom":
+        s, e = r.f[0], n
+    elif isinstance(r, Struct) and r.ty == "RangeTo":
+        s, e = 0, r.f[0]
+    elif isinstance(r, Struct) and r.ty == "Range":
+        s, e = r.f
+    else:
+        raise Unsupported("index_mut by %r" % (r,))
+    if is_sym(s) or is_sym(e):
+        raise Unsupported("symbolic slice range")
+    if not (s <= e <= n):
+        raise Panic("slice index out of range")
+    return Ptr([Slice(base, lo + s, lo + e)], 0)
+
+
+_old_slice_index_range = M["<[T] as Index>::index"]
+
+
+def _slice_index(m, a, c):
+    x = deref(a[0])
+    if isinstance(x, (Slice, Arr)):
+        return slice_index_mut(m, a, c)
+    return _old_slice_index_range(m, a, c)
+
+
+M["<[T] as Index>::index"] = _slice_index
+
+
+@model("core::num::<impl usize>::checked_sub")
+def usize_checked_sub(m, a, c):
+    x, y = a
+    if is_sym(x) or is_sym(y):
+        raise Unsupported("symbolic checked_sub")
+    return some(x - y) if x >= y else none()
+
+
+@model("Result::unwrap_or")
+def result_unwrap_or(m, a, c):
+    return a[0].f[0] if a[0].variant == "Ok" else a[1]
+
+
+@model("<&str as Into>::into", "<&str as Into<Cow>>::into", "<str as Into>::into")
+def str_into_cow(m, a, c):
+    return Enum("Cow", "Borrowed", 0, [a[0]])
+
+
+def utf8_scan(m, b):
+    """core::str::from_utf8 on a list of (symbolic) bytes -> ('ok',) | ('err', valid_up_to, error_len or None).
+    Forks on the class of every byte (Unicode table 3-7)."""
+    n = len(b)
+    i = 0
+    rng = lambda x, lo, hi: in_range(x, lo, hi)
+    while i < n:
+        c = b[i]
+        opts = [("ascii", rng(c, 0, 0x7F)), ("2", rng(c, 0xC2, 0xDF)), ("e0", c == 0xE0 if is_sym(c) else c == 0xE0),
+                ("3", b_or(rng(c, 0xE1, 0xEC), rng(c, 0xEE, 0xEF))), ("ed", c == 0xED), ("f0", c == 0xF0), ("4", rng(c, 0xF1, 0xF3)), ("f4", c == 0xF4)]
+        neg = b_and(*[b_not(x) for _, x in opts])
+        lab = m.choose([(l, x) for l, x in opts if x is not False] + [("bad", neg)], "utf8 lead")
+        if lab == "ascii":
+            i += 1
+            continue
+        if lab == "bad":
+            return ("err", i, 1)
+        need, lo, hi = {"2": (1, 0x80, 0xBF), "e0": (2, 0xA0, 0xBF), "3": (2, 0x80, 0xBF), "ed": (2, 0x80, 0x9F), "f0": (3, 0x90, 0xBF),
+                        "4": (3, 0x80, 0xBF), "f4": (3, 0x80, 0x8F)}[lab]
+        for j in range(1, need + 1):
+            if i + j >= n:
+                return ("err", i, None)
+            x = b[i + j]
+            l, h = (lo, hi) if j == 1 else (0x80, 0xBF)
+            if not m.branch_bool(rng(x, l, h), "utf8 continuation"):
+                return ("err", i, j)
+        i += need + 1
+    return ("ok",)
+
+
+@model("from_utf8", "core::str::from_utf8", "std::str::from_utf8", "str::from_utf8", "core::str::converts::from_utf8")
+def str_from_utf8(m, a, c):
+    b = bytes_of(a[0])
+    r = utf8_scan(m, b)
+    if r[0] == "ok":
+        return Enum("Result", "Ok", 0, [Ptr([Str(b, True)], 0)])
+    return Enum("Result", "Err", 1, [Struct("Utf8Error", [r[1], some(r[2]) if r[2] is not None else none()])])
+
+
+@model("Utf8Error::valid_up_to")
+def utf8error_valid_up_to(m, a, c):
+    return deref(a[0]).f[0]
+
+
+@model("Utf8Error::error_len")
+def utf8error_error_len(m, a, c):
+    return deref(a[0]).f[1]
+
+
+@model("from_utf8_unchecked", "core::str::from_utf8_unchecked", "std::str::from_utf8_unchecked", "str::from_utf8_unchecked")
+def str_from_utf8_unchecked(m, a, c):
+    return Ptr([Str(bytes_of(a[0]), True)], 0)
+
+
+@model("<Sink as TendrilSink>::process")
+def tsink_process(m, a, c):
+    t = a[1]
+    m.notes.setdefault("sink_bytes", []).extend(bytes_of(Ptr([t], 0)))
+    m.notes["sink_calls"] = m.notes.get("sink_calls", 0) + 1
+    return UNIT
+
+
+@model("<Sink as TendrilSink>::error")
+def tsink_error(m, a, c):
+    m.notes["sink_errors"] = m.notes.get("sink_errors", 0) + 1
+    return UNIT
+
+
+@model("<Sink as TendrilSink>::finish")
+def tsink_finish(m, a, c):
     return UNIT
